@@ -25,7 +25,7 @@ def canon(kind, v):
     return str(v)
 
 
-LEAVES = [("int", 3), ("int", -7), ("str", "hello"), ("str", "with \"quote\" # not a comment"), ("float", 1.5), ("float", 0.25), ("bool", True), ("bool", False),
+LEAVES = [("int", 3), ("int", -7), ("str", "3"), ("str", "1.5"), ("str", "True"), ("str", "hello"), ("str", "with \"quote\" # not a comment"), ("float", 1.5), ("float", 0.25), ("bool", True), ("bool", False),
           ("array", [1, 2, 3]), ("array", ["a", "b"]), ("array", [])]
 KEYS = ["alpha", "beta", "gamma", "port"]
 
@@ -115,7 +115,7 @@ def rand_doc(rnd, depth, keys=KEYS):
 
 
 def small_docs():
-    lv = [leaf("int", 3), leaf("str", "hello")]
+    lv = [leaf("int", 3), leaf("str", "hello"), leaf("str", "3")]
     docs = [table([])]
     for k in ("alpha", "beta"):
         for x in lv:
